@@ -105,6 +105,25 @@ def clear (h : Heap) (_c : Cont) : Heap × Cont :=
 def discard (h : Heap) (c : Cont) (k : K) : Heap × Cont :=
   if c.dict.any (fun p => p.1 == k) then delitem h c k else (h, c)
 
+/-- `insert(index, key, value)` for one pair at the already normalised index: the item list is edited in
+    place; the dict entry of the key is set to a freshly built value list (`[val for k, val in items if
+    k == key]` for a present key, `[value]` for a new one) -/
+def insertOne (h : Heap) (c : Cont) (i : Nat) (k : K) (v : V) : Heap × Cont :=
+  let old := h.itemLists c.items
+  let nl := old.take i ++ [(k, v)] ++ old.drop i
+  let h1 := h.setItems c.items nl
+  if c.dict.any (fun p => p.1 == k) then
+    let (h2, vid) := h1.allocVals ((nl.filter (fun p => p.1 == k)).map (·.2))
+    (h2, { c with dict := c.dict.map (fun p => if p.1 == k then (k, vid) else p) })
+  else
+    let (h2, vid) := h1.allocVals [v]
+    (h2, { c with dict := c.dict ++ [(k, vid)] })
+
+/-- `insert(index, pairs)`: the pairs go in one after the other, the index moving along -/
+def insertAll (h : Heap) (c : Cont) (i : Nat) : List (K × V) → Heap × Cont
+  | [] => (h, c)
+  | (k, v) :: r => let (h1, c1) := insertOne h c i k v; insertAll h1 c1 (i + 1) r
+
 inductive Op
   | append (k : K) (v : V)
   | delitem (k : K)
@@ -114,6 +133,8 @@ inductive Op
   | update (ps : List (K × V))
   | clear
   | discard (k : K)
+  | popall (k : K)
+  | insert (i : Nat) (ps : List (K × V))
   deriving Repr
 
 def step (h : Heap) (c : Cont) : Op → Heap × Cont
@@ -125,6 +146,8 @@ def step (h : Heap) (c : Cont) : Op → Heap × Cont
   | .update ps => setAll h c ps
   | .clear => clear h c
   | .discard k => discard h c k
+  | .popall k => discard h c k   -- `MutableMapping.pop`: `del self[key]`; a missing key raises, nothing changed
+  | .insert i ps => insertAll h c i ps
 
 def run (h : Heap) (c : Cont) : List Op → Heap × Cont
   | [] => (h, c)
